@@ -73,7 +73,8 @@ Definition pkg_tags (filetags : list tags) : tags := merge filetags.
 
 (* ---- the type table (package.go:116-144) ---- *)
 Inductive kind := KNamed | KAlias | KOther.        (* what obj.Type() is: *types.Named, *types.Alias, anything else (type parameter) *)
-Inductive action := ANil | ASkip | AIgnore | AErr. (* what the generator returns for the type: nil, ErrSkip, ErrIgnore, another error *)
+Inductive action := ANil | AQuiet | ASkip | AIgnore | AErr.
+   (* what the generator does for the type: renders and returns nil; returns nil without rendering; ErrSkip; ErrIgnore; another error *)
 (* a callback handed to Context.Defer: identity, whether it returns an error, the callbacks it registers itself when it runs *)
 Inductive dspec := DS (id : N) (err : bool) (nested : list dspec).
 
@@ -126,7 +127,8 @@ Definition doc_tags (globals pkgtags : tags) (d : tdef) : tags := merge [globals
 Inductive ckind := CT | CA.                     (* GenerateType / GenerateAliasType *)
 Definition call := (ckind * tdef)%type.
 Definition is_err (a : action) : bool := match a with AErr => true | _ => false end.
-Definition is_nil_action (a : action) : bool := match a with ANil => true | _ => false end.
+Definition is_nil_action (a : action) : bool := match a with ANil | AQuiet => true | _ => false end.   (* returns nil *)
+Definition renders (a : action) : bool := match a with ANil => true | _ => false end.
 
 (* for _, n := range names { tpe := pkgTypes[n].Type(); switch … }   returns the calls made, in order,
    and whether the loop was left through `return err` *)
@@ -214,7 +216,7 @@ Definition event_of_call (pkg : N) (g : gen) (globals pkgtags : tags) (c : call)
   | CA => EAlias pkg (g_idx g) (td_id (snd c)) t
   end.
 
-Definition rendered (cs : list call) : bool := existsb (fun c => is_nil_action (td_action (snd c))) cs.
+Definition rendered (cs : list call) : bool := existsb (fun c => renders (td_action (snd c))) cs.
 
 (* result: events, outcome, "the generator's buffer is not empty" *)
 Definition session (fx : fixes) (pkg : N) (g : gen) (globals pkgtags : tags) (defs : list tdef) (ns : list bytes)
